@@ -56,6 +56,10 @@ type Op struct {
 	// Die: the temp actor has no restart budget and is crashed to death instead of being poisoned: it
 	// stops all the same, and ActorStoppedEvent is published for it
 	Die bool `json:"die,omitempty"`
+	// PillBehind (with Crash; 1 = Poison, 2 = Stop): the stop request is queued behind the crashing
+	// message in the same inbox batch.  The fresh incarnation is started (it handles Started), finds
+	// the request in the replayed tail and stops: restarted, STARTED and stopped are all occurrences.
+	PillBehind int `json:"pill_behind,omitempty"`
 	// send
 	Tgt string `json:"tgt,omitempty"` // nil never stopped foreign live
 	Snd int    `json:"snd,omitempty"` // 0 = no sender
@@ -408,7 +412,7 @@ func run(c Case, c09 bool) (feat map[string]int, err error) {
 			id := fmt.Sprintf("tmp/%d", h.tmpN)
 			pinged := make(chan struct{}, 4)
 			withChild := op.DupChild && !op.Crash
-			selfSend := op.SelfSend
+			selfSend := op.SelfSend && !(op.Crash && op.PillBehind > 0)
 			var crashing atomic.Bool // the Stopped told to a crashed incarnation is not the final one
 			f := func(c *actor.Context) {
 				switch m := c.Message().(type) {
@@ -454,7 +458,33 @@ func run(c Case, c09 bool) (feat map[string]int, err error) {
 				h.add(exp{kind: "life", text: "duplicate:" + id + "/kid/0"})
 				h.note("life-duplicate-child")
 			}
-			if op.Crash {
+			gone := false
+			if op.Crash && op.PillBehind > 0 {
+				gateIn, gateOut := make(chan struct{}), make(chan struct{})
+				e.Send(tp, func(*actor.Context) { close(gateIn); <-gateOut })
+				select {
+				case <-gateIn:
+				case <-time.After(wait):
+					return nil, fmt.Errorf("%w: temp actor never reached the gate", errInconclusive)
+				}
+				e.Send(tp, "crash")
+				var pctx interface{ Done() <-chan struct{} }
+				if op.PillBehind == 1 {
+					pctx = e.Poison(tp)
+				} else {
+					pctx = e.Stop(tp)
+				}
+				close(gateOut)
+				select {
+				case <-pctx.Done():
+				case <-time.After(wait):
+					return nil, fmt.Errorf("%w: stop request queued behind a crash not done", errInconclusive)
+				}
+				h.add(exp{kind: "life", text: "restarted(1):" + id})
+				h.add(exp{kind: "life", text: "started:" + id})
+				h.note("life-stop-request-in-the-replayed-tail")
+				gone = true
+			} else if op.Crash {
 				crashing.Store(true)
 				e.Send(tp, "crash")
 				e.Send(tp, "ping")
@@ -468,12 +498,13 @@ func run(c Case, c09 bool) (feat map[string]int, err error) {
 				h.note("life-crash")
 				crashing.Store(false)
 			}
-			if op.Dup {
+			if op.Dup && !gone {
 				e.SpawnFunc(f, "tmp", actor.WithID(fmt.Sprint(h.tmpN)))
 				h.add(exp{kind: "life", text: "duplicate:" + id})
 				h.note("life-duplicate")
 			}
-			if die {
+			if gone {
+			} else if die {
 				e.Send(tp, "crash")
 				deadline := time.Now().Add(wait)
 				for e.Registry.GetPID("tmp", fmt.Sprint(h.tmpN)) != nil {
@@ -806,6 +837,9 @@ func genCase(t *rapid.T, c09 bool) Case {
 			op.DupChild = rapid.IntRange(0, 2).Draw(t, "dupchild") == 0
 			op.SelfSend = rapid.IntRange(0, 2).Draw(t, "selfsend") == 0
 			op.Die = rapid.IntRange(0, 3).Draw(t, "die") == 0
+			if op.Crash {
+				op.PillBehind = rapid.SampledFrom([]int{0, 0, 1, 2}).Draw(t, "pillbehind")
+			}
 		case "send":
 			op.Tgt = rapid.SampledFrom([]string{"nil", "never", "never", "stopped", "stopped", "foreign", "foreign", "live", "namesake"}).Draw(t, "tgt")
 			op.Snd = rapid.IntRange(0, 3).Draw(t, "snd")
